@@ -410,6 +410,36 @@ ZOO = [
     ("ansi", "SELECT a FROM (s JOIN u ON s.k = u.k)"), ("ansi", "SELECT a FROM s NATURAL JOIN u"), ("ansi", "VALUES (1, 2), (3, 4)"), ("ansi", "TABLE s"), ("ansi", "SELECT"), ("ansi", "INSERT INTO t"),
     ("ansi", "CREATE TABLE t AS"), ("ansi", "MERGE INTO t USING s ON t.k = s.k"), ("ansi", "UPDATE t SET"), ("ansi", "WITH q AS (SELECT 1) SELECT * FROM q, q q2"), ("ansi", "()"), ("ansi", "SELECT * FROM (((s)))"),
 ]
+ZOO += [
+    # alias forms
+    ("sparksql", "SELECT explode(m) AS (k, v) FROM t"), ("hive", "SELECT posexplode(arr) AS (p, x) FROM t"), ("sparksql", "SELECT inline(arr) AS (a, b) FROM t"),
+    ("sparksql", "INSERT INTO u SELECT stack(2, a, b) AS (c1) FROM t"), ("sparksql", "SELECT k, v FROM t LATERAL VIEW explode(m) e AS k, v"),
+    ("hive", "SELECT TRANSFORM (a, b) USING 'cat' AS (x, y) FROM t"), ("ansi", "SELECT d.c1 FROM (SELECT a, b FROM t) AS d (c1, c2)"),
+    ("postgres", "SELECT * FROM generate_series(1, 3) WITH ORDINALITY AS g (v, n)"), ("postgres", "SELECT * FROM json_to_record('{}') AS x (a int, b text)"),
+    ("postgres", "INSERT INTO u SELECT v.a FROM (VALUES (1, 2)) AS v (a, b)"), ("snowflake", "SELECT f.value AS v FROM t, TABLE(FLATTEN(t.arr)) AS f (seq, key, path, index, value, this)"),
+    ("tsql", "SELECT x = a, y = b FROM t"), ("tsql", "SELECT a AS [my col], b 'str alias' FROM t"), ("mysql", "SELECT a AS `my col`, b 'str alias' FROM t"),
+    ("bigquery", "SELECT * FROM UNNEST([STRUCT(1 AS a, 2 AS b)]) AS s"), ("bigquery", "SELECT a FROM d.s AS x WITH OFFSET AS off"), ("trino", "SELECT x FROM t CROSS JOIN UNNEST(a, b) AS u (x, y)"),
+    ("oracle", "SELECT a c1, b \"C 2\" FROM t"), ("ansi", "WITH q (c1, c2) AS (SELECT a, b FROM t) INSERT INTO u SELECT c1 FROM q"), ("ansi", "CREATE VIEW v (c1, c2) AS SELECT a, b FROM t"),
+    ("ansi", "INSERT INTO u (c1) SELECT a AS c1 FROM t AS x (a)"), ("duckdb", "SELECT a: b FROM t"), ("clickhouse", "SELECT a AS b, b + 1 AS c FROM t"),
+]
+
+
+def _subquery_matrix():
+    """subquery FORMS x POSITIONS: scalar / row subqueries that are set operations, WITH queries, wrapped in extra parentheses, VALUES lists or carry
+    ORDER BY ... LIMIT, in every position an expression or a relation can take"""
+    forms = ["SELECT max(a) FROM x", "SELECT a FROM x UNION SELECT b FROM y", "WITH q AS (SELECT a FROM x) SELECT a FROM q", "(SELECT a FROM x)",
+             "SELECT a FROM x ORDER BY a LIMIT 1", "VALUES (1)", "SELECT a FROM x EXCEPT SELECT b FROM y INTERSECT SELECT c FROM z", "SELECT 1", "SELECT * FROM x"]
+    positions = ["INSERT INTO t (c) VALUES (({q}))", "INSERT INTO t VALUES (1, ({q}), 2)", "INSERT INTO t SELECT ({q}) AS c FROM s", "INSERT INTO t SELECT CASE WHEN s.a > 0 THEN ({q}) ELSE 0 END AS c FROM s",
+                 "INSERT INTO t SELECT coalesce(({q}), 0) AS c FROM s", "INSERT INTO t SELECT a FROM s WHERE a IN ({q})", "INSERT INTO t SELECT a FROM s WHERE a = ({q})",
+                 "INSERT INTO t SELECT s.a FROM s JOIN u ON s.a = ({q})", "UPDATE t SET c = ({q})", "UPDATE t SET c = s.a FROM s WHERE s.a IN ({q})",
+                 "MERGE INTO t USING ({q}) d ON t.c = d.a WHEN MATCHED THEN UPDATE SET c = d.a", "INSERT INTO t SELECT d.a FROM ({q}) d", "WITH w AS ({q}) INSERT INTO t SELECT a FROM w",
+                 "INSERT INTO t SELECT a FROM s GROUP BY a HAVING count(*) > ({q})", "INSERT INTO t SELECT a FROM s WHERE EXISTS ({q})", "INSERT INTO t SELECT a FROM s WHERE a IN (1, ({q}), 3)",
+                 "CREATE TABLE t AS {q}", "CREATE VIEW v AS ({q})", "INSERT INTO t {q}", "INSERT INTO t ({q})", "SELECT a FROM s ORDER BY ({q})", "INSERT INTO t SELECT a FROM s WHERE a > ALL ({q})",
+                 "INSERT INTO t SELECT a FROM s, LATERAL ({q}) l", "INSERT INTO t SELECT a FROM s WHERE (a, b) IN ({q})", "DELETE FROM t WHERE c IN ({q})"]
+    return [("ansi", p.format(q=f)) for p in positions for f in forms]
+
+
+ZOO += _subquery_matrix()
 SILENT_DIALECTS = ["ansi", "postgres", "mysql", "sparksql", "snowflake", "tsql", "bigquery"]
 SUPPORTED_POOL = [
     "INSERT INTO t1 SELECT a, b FROM s1", "CREATE TABLE t2 AS SELECT x.a, y.b FROM s1 x JOIN s2 y ON x.k = y.k",
@@ -517,7 +547,7 @@ def replay(case):
 
 def run(ctx):
     s = _pool()
-    n = ctx.n(12000, 400000)
+    n = ctx.n(10000, 400000)
     res = runner.merge_all(runner.pmap(_mutate_worker, [(i, n // runner.NCPU, ctx) for i in range(runner.NCPU)]))
     # cross-dialect: corpus statements under foreign dialects (quick: seeded stride sample)
     items = [(i, d) for i in range(len(s["pool"]) - len(ZOO)) for d in s["dialects"] if d != s["pool"][i]["dialect"]]
